@@ -29,7 +29,7 @@ from nbdime.args import (
     add_generic_args, add_diff_args, add_merge_args, add_filename_args,
     add_git_config_subcommand, ConfigBackedParser,
 )
-from nbdime.utils import locate_gitattributes, ensure_dir_exists
+from nbdime.utils import locate_gitattributes, ensure_dir_exists, has_notebook_attribute
 
 
 def enable(scope=None):
@@ -50,7 +50,7 @@ def enable(scope=None):
     if os.path.exists(gitattributes):
         # (read as bytes: git does not require the file to be UTF-8)
         with io.open(gitattributes, 'rb') as f:
-            if b'merge=jupyternotebook' in f.read():
+            if has_notebook_attribute(f.read(), b'merge=jupyternotebook'):
                 # already written, nothing to do
                 return
     else:
